@@ -477,6 +477,10 @@ func (s *AbsfsNFS) WriteWithContext(ctx context.Context, node *NFSNode, offset i
 
 	n, err := f.WriteAt(data, offset)
 	if err == nil {
+		// The reply says FILE_SYNC: the data must be on stable storage before it is sent
+		err = f.Sync()
+	}
+	if err == nil {
 		// Invalidate cache after successful write
 		s.attrCache.Invalidate(node.path)
 
